@@ -11,7 +11,7 @@ W=/tmp/seed/$name
 D=/verif/seeded/$name
 mkdir -p $D
 cp $W/SEED/patch.diff $W/SEED/meta.json $D/ 2>/dev/null
-cp $W/SEED/*_test.go $D/ 2>/dev/null
+cp $W/SEED/*_test.go $W/SEED/*.txt $D/ 2>/dev/null
 cd $W || exit 2
 files=$(git diff --name-only -- . ':!SEED' | grep -v seeded_demo_test.go | tr '\n' ' ')
 demo=$(python3 -c "import json;print(json.load(open('$D/meta.json'))['demo_cmd'])" 2>/dev/null)
